@@ -102,7 +102,7 @@ def replay(cases):
     viol, nontriv, samples = [], set(), []
     for ci, c in enumerate(cases):
         hist = c["hist"]
-        label = " ; ".join("%s(%s)" % (s["a"], s["arg"]) for s in hist)
+        label = " ; ".join("%s(%s%s)" % (s["a"], s["arg"], "" if s["kind"] == "none" else ":" + s["kind"]) for s in hist)
         fr = any(s["a"] == "toProj" for s in hist)
         rnd = random.Random(hash(label) & 0xFFFFFF)
         combos = []
@@ -114,6 +114,9 @@ def replay(cases):
             pts = [p1, p2, b1]
             bases = {"B1": b1, "B2": b2, "first": p1}
             case = {"hist": label, "points": pts, "bases": {"B1": b1, "B2": b2}}
+            # the caller's base objects: created once, handed to every conversion that names them, never to be modified
+            objs = {nm: {"geo": GeoCoords(*bv), "ecef": ECEFCoords(*ref_geo2ecef(*bv))} for nm, bv in bases.items()}
+            frozen = {nm: {kd: triple(o) for kd, o in d.items()} for nm, d in objs.items()}
             # ---------------- whole-track replay
             try:
                 with core.quiet():
@@ -121,17 +124,17 @@ def replay(cases):
                 for si, s in enumerate(hist):
                     where = "track history [%s] step %d" % (label, si + 1)
                     with core.quiet():
+                        barg = None if s["kind"] == "none" else objs[s["arg"]][s["kind"]]
                         if s["a"] == "toECEF":
-                            tr.toECEFCoords()
+                            tr.toECEFCoords() if barg is None else tr.toECEFCoords(barg)
                         elif s["a"] == "toGeo":
-                            tr.toGeoCoords()
+                            tr.toGeoCoords() if barg is None else tr.toGeoCoords(barg)
                         elif s["a"] == "toProj":
                             tr.toProjCoords(2154)
                         elif s["arg"] == "first":
                             tr.toENUCoords()
                         else:
-                            b = bases[s["arg"]]
-                            tr.toENUCoords(GeoCoords(*b) if (si + ci) % 2 == 0 else ECEFCoords(*ref_geo2ecef(*b)))
+                            tr.toENUCoords(barg)
                     if tr.getSRID() != s["srid"]:
                         viol.append(("track/srid", "%s: track is %s, specification %s" % (where, tr.getSRID(), s["srid"]), case)); break
                     if s["base"] == "none":
@@ -168,20 +171,21 @@ def replay(cases):
                 for si, s in enumerate(hist):
                     where = "point history [%s] step %d" % (label, si + 1)
                     with core.quiet():
+                        kd = "geo" if s["kind"] == "none" else s["kind"]
                         if s["a"] == "toECEF":
-                            pos = pos.toECEFCoords() if cur[0] == "Geo" else pos.toECEFCoords(GeoCoords(*bases[cur[1]]))
+                            pos = pos.toECEFCoords() if cur[0] == "Geo" else pos.toECEFCoords(objs[cur[1]][kd])
                         elif s["a"] == "toGeo":
                             if cur[0] == "ECEF":
                                 pos = pos.toGeoCoords()
                             elif cur[0] == "L93":
                                 pos = pos.toGeoCoords(2154)
                             else:
-                                pos = pos.toGeoCoords(GeoCoords(*bases[cur[1]]))
+                                pos = pos.toGeoCoords(objs[cur[1]][kd])
                         elif s["a"] == "toProj":
                             pos = pos.toProjCoords(2154)
                         else:
-                            nb = GeoCoords(*bases[s["arg"]])
-                            pos = pos.toENUCoords(GeoCoords(*bases[cur[1]]), nb) if cur[0] == "ENU" else pos.toENUCoords(nb)
+                            nb = objs[s["arg"]][kd]
+                            pos = pos.toENUCoords(objs[cur[1]]["ecef" if kd == "geo" else "geo"], nb) if cur[0] == "ENU" else pos.toENUCoords(nb)
                     cur = tuple(s["real"])
                     kind = {"Geo": GeoCoords, "ECEF": ECEFCoords, "ENU": ENUCoords, "L93": ENUCoords}[cur[0]]
                     if not isinstance(pos, kind):
@@ -190,6 +194,11 @@ def replay(cases):
                         check_pos(to_geo(triple(pos), cur, bases), p2, where, viol, case, local=cur[0] == "ENU")
             except (Exception, SystemExit) as ex:
                 viol.append(("point/raised", "point history [%s] raised %r" % (label, ex), case))
+            for nm, d in objs.items():
+                for kd, o in d.items():
+                    if triple(o) != frozen[nm][kd]:
+                        viol.append(("caller-base-modified/" + kd, "history [%s]: the caller's %s base object %s was modified: %r -> %r" %
+                                     (label, kd, nm, frozen[nm][kd], triple(o)), case))
         if len({s["a"] for s in hist}) >= 3:
             nontriv.add(label)
         if ci == 0:
@@ -205,7 +214,7 @@ def mc_cfg(depth, emit, legacy=False, invs=("Denotes", "BaseRecorded"), props=("
 
 def run(ctx):
     quick = ctx.tier == "quick"
-    depth = 5 if quick else 7
+    depth = 5 if quick else 6
     ctx.rule = ("TLC: every legal conversion history of %d track-level calls (toECEF, toENU(B1 | B2 | default first fix), toGeo, "
                 "toProj(2154)) preserves what the coordinates denote, records the real base and changes it only when projecting "
                 "(variant forgetting the base on ENU -> ENU refuted). Binding: every complete history replayed on a real Track "
@@ -217,7 +226,7 @@ def run(ctx):
     ctx.assumptions += ["the concrete -> abstract map for ECEF / ENU frames is an independent WGS84 implementation in the harness (a = 6378137, 1/f = 298.257223563, "
                         "iterative inverse): trusted base, TLC cannot compute trigonometry",
                         "Lambert-93 positions are judged through the round trip back to geographic coordinates (no independent projection formula)",
-                        "explicit bases passed to a conversion are the recorded ones (legal histories only)"]
+                        "explicit bases passed to a conversion are the recorded ones (legal histories only); they are handed over as GeoCoords or ECEFCoords objects that are reused across steps and must never be modified"]
     ctx.extra["trusted_base"] = ["harness/drivers/c14.py ref_geo2ecef / ref_ecef2geo / ref_enu2ecef (WGS84 reference)"]
     ctx.tlc_mc("Frames", ctx.write_cfg("FR.cfg", mc_cfg(depth, False)), label="frames: denotation and base bookkeeping")
     ctx.tlc_mc("Frames", ctx.write_cfg("FRL.cfg", mc_cfg(3, False, legacy=True, invs=("BaseRecorded",), props=())),
